@@ -52,6 +52,10 @@ def execute(spec, keep_coords=False):
     plan = builder(h, d, **spec.get("plan_args", {}))
     if spec.get("wrap"):
         plan = spec["wrap"](plan, h, d)
+    if spec.get("wrap_name"):
+        from vf.corpus import WRAPS
+
+        plan = WRAPS[spec["wrap_name"]](plan, h, d)
     for inj in spec.get("inj", []):
         m, j, kind = inj[0], inj[1], inj[2]
         params = inj[3] if len(inj) > 3 else {}
